@@ -87,6 +87,12 @@ CHECKS.update({
    note="graphs are small (tens of nodes) so node/walk enumeration is complete; get_running_time_hours itself is only compiled with the pyo3 feature, its defining difference is checked instead; the multi-origin scheduling defect is a known finding (3 keys, one input class)"),
 })
 
+CHECKS.update({
+ "C19": dict(level="model_checking", ref="3 C19", technique="exhaustive enumeration (E-SHAPE) of save interval x run length x failing-step position x composition on the real walk() of all four simulation kinds, plus exhaustive action sequences (E-SEQ: step ok / step failing / set_save_interval) with a reference model of the saved steps; generic inspection of every nested history, counter and interval",
+   text="Every combination of simulation kind, consist composition, save interval, run length 0..12 (+ long runs) and failing-step position is walked with the real walk()/walk_timed_path; every sequence of 5 actions (step, failing step, interval change) is driven on locomotive and consist simulations. After each run / action all histories found anywhere in the object tree must have equal length and identical step columns equal to the reference list of saved steps, all nested counters must agree and equal steps+1, nested save intervals must equal the top-level one, and a failed step must change neither.",
+   note="object tree read through its serialized form; the reference list of saved steps encodes walk()'s initial save"),
+})
+
 def main():
     checks = []
     for pid in sorted(CHECKS):
